@@ -110,7 +110,7 @@ def _load(tu_rel, label, repo, extra, absolute):
     pre = 'ast_%s_' % os.path.basename(tu_rel)
     old = sorted((fn for fn in os.listdir(CACHE) if fn.startswith(pre) and fn.endswith('.pkl') and os.path.join(CACHE, fn) != path),
                  key=lambda fn: os.path.getmtime(os.path.join(CACHE, fn)), reverse=True)
-    for fn in old[1:]:          # keep the newest other one: the unchanged tree's cache survives a run on a modified tree
+    for fn in old[3:]:          # keep the newest other ones: the unchanged tree's cache survives a run on a modified tree
         try: os.remove(os.path.join(CACHE, fn))
         except OSError: pass
     sys.stderr.write('[astload] %s: %d chunks in %.1fs\n' % (label, len(chunks), time.time() - t0))
